@@ -77,6 +77,48 @@ def cargo_check(set_dir, timeout=3000):
     return p.returncode, report, errors, other, p.stdout
 
 
+def crate_checks(out):
+    """Config::build_crate output for every mix of types / errors / services: `cargo check` of the emitted crate, whose
+    conjure-* dependencies are pointed at /repo's crates (same names, so a dependency the manifest lacks stays missing)."""
+    vc.cargo_build("vh")
+    vh = os.path.join(vc.HARNESS, "target", "debug", "vh")
+    base = os.path.join(vc.HARNESS, "target", "c03crates")      # below harness/: its .cargo/config.toml (offline, target dir) applies
+    shutil.rmtree(base, ignore_errors=True)
+    os.makedirs(base)
+    n = 0
+    for name, doc in c03gen.crate_irs().items():
+        for j, extra in enumerate([{}, {"exhaustive": True, "strip_prefix": "com.palantir"}]):
+            d = os.path.join(base, "%s%d" % (name, j))
+            irp = d + ".json"
+            with open(irp, "w") as f:
+                json.dump(doc, f)
+            cfg = dict({"crate_name": "gen-%s%d" % (name.replace("_", "-"), j), "crate_version": "1.0.0", "version": "1.0.0"}, **extra)
+            p = subprocess.run([vh, "gen-tree", irp, d, json.dumps(cfg)], stdout=subprocess.PIPE, stderr=subprocess.PIPE, text=True, timeout=300)
+            n += 1
+            rep = {"crate": name, "config": cfg, "ir": doc}
+            if p.returncode != 0:
+                out.violation("C03:generate:crate", "crate generation failed for %s: %s" % (name, p.stderr[-200:]), rep)
+                continue
+            mf = os.path.join(d, "Cargo.toml")
+            text = open(mf).read()
+            patched = re.sub(r'^(conjure-[a-z]+) = "[^"]*"$', lambda m: '%s = { path = "/repo/%s" }' % (m.group(1), m.group(1)), text, flags=re.M)
+            with open(mf, "w") as f:
+                f.write(patched + "\n[workspace]\n")
+            shutil.copyfile(os.path.join(vc.HARNESS, "Cargo.lock"), os.path.join(d, "Cargo.lock"))
+            env = dict(os.environ)
+            env["CARGO_NET_OFFLINE"] = "true"
+            q = subprocess.run(["cargo", "check", "--offline", "--message-format=short"], cwd=d, env=env, stdout=subprocess.PIPE, stderr=subprocess.STDOUT, text=True, timeout=1800)
+            if q.returncode != 0:
+                errs = [l.strip()[-260:] for l in q.stdout.splitlines() if "error" in l and "/c03crates/" in l]
+                if not errs:
+                    raise vc.ToolError("cargo check of the generated crate %s failed outside its sources:\n%s" % (name, q.stdout[-1500:]))
+                code = re.search(r"error\[(E\d+)\]", " ".join(errs))
+                out.violation("C03:compile:crate:%s:%s" % (name, code.group(1) if code else "error"),
+                              "the crate generated for a definition with %s does not compile with the dependencies of its manifest (%s): %s" % (
+                                  name.replace("_", " + "), ", ".join(re.findall(r"^(conjure-[a-z]+) =", text, re.M)), errs[0]), dict(rep, errors=errs[:5]))
+    return n
+
+
 def run(tier, seed):
     out = vc.Outcome(PID, tier, seed, "model_checking")
     rng = vc.Rng(seed)
@@ -153,6 +195,9 @@ def run(tier, seed):
         if failing:
             out.violation(sig, "known limitation %s still fails: %s" % (name, (kerrors.get(cid) or [rep.get("error", "module declared twice")])[0][-160:]),
                           {"id": cid, "ir_file": os.path.join(kdir, cid + ".json")})
+    # full-crate output: the emitted crate compiles with exactly the dependencies its own manifest declares
+    ncrates = crate_checks(out)
+    replayed += ncrates
     out.coverage = {
         "states": states, "transitions": transitions, "traces_validated_against_impl": replayed,
         "samples": [{"id": e[0], "config": e[2], "types": len(e[1]["types"]), "services": len(e[1]["services"])} for e in entries[:2] + entries[-3:]],
@@ -165,7 +210,7 @@ def run(tier, seed):
     }
     out.assumptions = ["TLC 1.8.0", "rustc is the oracle of 'compiles'", "Conjure-compiler validity is approximated conservatively "
                        "(no Java toolchain offline): binary/bearertoken path-query-header parameters are not generated",
-                       "full-crate output (build_crate) is exercised by C20, not compiled here"]
+                       "the emitted crate's conjure-* dependencies are redirected to /repo by name (versions are not resolvable offline)"]
     return out.finish()
 
 
